@@ -32,6 +32,13 @@ namespace bloc
 
 class Context;
 
+#ifdef BLOC_VERIF
+class Statement;
+/* verification step callback: called before each statement is executed */
+typedef void (*verif_step_fn)(Context& ctx, const Statement * stmt);
+LIBBLOC_API void verif_set_step(verif_step_fn fn);
+#endif
+
 class Statement {
 
 public:
